@@ -6,6 +6,7 @@ import ScVerif.C12.NameDefault
 import ScVerif.C12.Lin
 import ScVerif.C12.Reentrant
 import ScVerif.C12.PumpTrace
+import ScVerif.C12.Served
 /-!
 Driver handler for C12: parses one request line, runs the model, prints the canonical answer.
 
@@ -19,7 +20,11 @@ conc  <fb> <fac> <reg0> <names> <sched>                  concurrent Gets, fine-g
 name  <default> <fields>                                 replaceEmptyNameField
 lin   <fb> <fac> <reg0> <progs> <sched>                  concurrent Add/Remove/Has/Get, macro schedule
 rre   <fb> <fac> <callback> <depth> <ops>                registry history with a callback that re-enters the router
+nrecv <default> <transport> <m0> <wire>                  absentNameReplaceServerStream.RecvMsg over a transport
+srv   <default> <fb> <fac> <ops> <method> U <wire> <childout>       history, then a unary call behind the interceptor
+srv   <default> <fb> <fac> <ops> <method> S <transport> <m0> <wire> <childscript> <callerscript>   … a stream call
 ```
+Transports: `ow` overwrite, `mg` merge, `f<e>` fail, `of<e>` overwrite then fail; `<m0>` = `z` is the zero message.
 Callback kinds (shared with the Go harness, `callbackOf`): `has get rm add sib mix undo`.
 Factory kinds (shared with the Go harness): `none new err nil both pfx odd`; the fallback makes
 clients `2000+k`, the factory `1000+k` (k = number of earlier calls).
@@ -224,8 +229,61 @@ def showOp : Op → String
   | .has n => "h:" ++ tilde n
   | .get n => "g:" ++ tilde n
 
+def parseTransport? (s : String) : Option Transport :=
+  if s = "ow" then some .overwrite
+  else if s = "mg" then some .merge
+  else if s.startsWith "of" then (parseNat? (s.drop 2).toString).map .overwriteFail
+  else if s.startsWith "f" then (parseNat? (s.drop 1).toString).map .fail
+  else none
+
+def parseMsg? (s : String) : Option Msg := (splitList s ",").mapM parseField?
+
+def showMsg (m : Msg) : String := commaList (m.map showField)
+
+/-- The handler's message: `z` = `new(Req)`. -/
+def parseM0? (s : String) (wire : Msg) : Option Msg :=
+  if s = "z" then some wire.zero else do
+    let m ← parseMsg? s
+    if m.length = wire.length then some m else none
+
 def handle? (toks : List String) : Option String :=
   match toks with
+  | ["nrecv", dflt, tr, m0, wire] => do
+    let t ← parseTransport? tr
+    let wire ← parseMsg? wire
+    let m0 ← parseM0? m0 wire
+    let r0 ← t.recv wire m0
+    -- the transport's RecvMsg: a function of what the handler's message holds (total outside the case at hand)
+    let inner : Msg → RecvOut := fun m => (t.recv wire m).getD r0
+    let r := wrappedRecv (unTilde dflt) inner m0
+    pure (showMsg r.msg ++ " err=" ++ showOptNat r.err)
+  | ["srv", dflt, fb, fac, ops, method, "U", wire, co] => do
+    let cfg ← cfgOf fb fac
+    let ops ← parseOps? ops
+    let method ← parseNat? method
+    let wire ← parseMsg? wire
+    let co ← parseUOut? co
+    let (s, _) := run cfg St.init ops
+    let (s', req, calls, out) := serveUnary (unTilde dflt) cfg s (fun _ => 5) method wire (fun _ _ _ => co)
+    pure ("req=" ++ (if calls.isEmpty then "-" else showMsg req) ++ " calls=" ++ showCalls calls ++
+      " out=" ++ showUOut out ++ " " ++ showSt s')
+  | ["srv", dflt, fb, fac, ops, method, "S", tr, m0, wire, cs, ks] => do
+    let cfg ← cfgOf fb fac
+    let ops ← parseOps? ops
+    let method ← parseNat? method
+    let t ← parseTransport? tr
+    let wire ← parseMsg? wire
+    let m0 ← parseM0? m0 wire
+    let cs ← parseChild? cs
+    let ks ← parseCaller? ks
+    let r0 ← t.recv wire m0
+    let inner : Msg → RecvOut := fun m => (t.recv wire m).getD r0
+    let (s, _) := run cfg St.init ops
+    let (s', req, o) := serveStream (unTilde dflt) inner cfg s (fun _ => 5) method m0 cs ks
+    let reqS := match req with
+      | some r => if o.calls.isEmpty then "-" else showMsg r
+      | none => "-"
+    pure ("req=" ++ reqS ++ " " ++ showObs o ++ " " ++ showSt s')
   | ["rre", fb, fac, cbk, depth, ops] => do
     let cfg ← cfgOf fb fac
     let cb ← callbackOf cbk
@@ -275,8 +333,8 @@ def handle? (toks : List String) : Option String :=
     let c := sched.foldl (lmacro cfg) (LConf.start reg0 0 0 progs)
     pure ("th=" ++ "|".intercalate (c.ths.map showLThread) ++ " " ++ showSt c.st)
   | ["name", dflt, fields] => do
-    let fs ← (splitList fields ",").mapM parseField?
-    pure (commaList ((replaceEmptyName (unTilde dflt) fs).map showField))
+    let fs ← parseMsg? fields
+    pure (showMsg (replaceEmptyName (unTilde dflt) fs))
   | _ => none
 
 def handle (toks : List String) : String :=
